@@ -399,7 +399,7 @@ class Runner:
             # and then issues its next command at once
             n = 0
             while self.sim.run_state.name not in ("STOPPED", "ENDED", "INITIALIZED",
-                                                  "NOT_INITIALIZED") and n < 100000:
+                                                  "NOT_INITIALIZED") and n < 3000:
                 detsim.coop_sleep(0.001)
                 n += 1
             H.append(("polled", self.cmd_index, n))
